@@ -154,6 +154,10 @@ class C04(NlpCheck):
           'obj_kinds': ['at_tf'], 'ncons': (1, 3), 'scale_prob': 0.2, 'offset_prob': 0.8, 'con_grids': ['control'], 'roots': False,
           'features': {'pc': 0.7, 'pcp': 0.7, 'vc': 0.6, 'vcp': 0.7},
           'Ns': [1, 2, 3, 3, 4, 5], 'Ms': [1, 2], 'degrees': [1, 2]}, 30, 400),
+        ("constraint-rows-all-methods",      # index-1 DAE under DirectCollocation: algebraic values of the point inside the constraints
+         {'methods': [('dc', 'rk')], 'grids': ['uniform', 'geometric', 'free'], 'horizon': ['num', 'freeT'],
+          'obj_kinds': ['at_tf'], 'ncons': (1, 3), 'scale_prob': 0.2, 'offset_prob': 0.0, 'features': {'dae': 1.0}, 'z_in_constraints': True,
+          'Ns': [1, 2, 3], 'Ms': [1, 2, 3], 'degrees': [1, 2, 3]}, 15, 200),
     ]
 
     def explanation(self):
@@ -308,6 +312,32 @@ class C06(NlpCheck):
                 "their coupling rows hold; FreeGrid sums to T; min/max rows bound their interval; coupling rows belong to the NLP of "
                 "every method. correspondence: grid rows (equality incl. nothing extra), control/integrator time vectors, sampled "
                 "t/DT/DT_control vs model")
+
+    def correspondence(self):
+        NlpCheck.correspondence(self)
+        self.minmax_stratified()
+
+    def minmax_stratified(self):
+        """every grid class x {min only, max only, both} x free horizon: the one-sided options are easy to lose"""
+        R = self.R_quick if self.tier == 'quick' else self.R_thorough
+        reps = 1 if self.tier == 'quick' else 6
+        kinds = ['uniform', 'uniform_locT', 'geometric', 'geometric_locT', 'free']
+        for rep in range(reps):
+            for gk in kinds:
+                for side in ('min', 'max', 'both'):
+                    prof = {'methods': [self.rng.choice(ALLM)], 'grids': [gk], 'horizon': ['freeT'], 'obj_kinds': ['at_tf'], 'ncons': (0, 0),
+                            'Ns': [2, 3, 4], 'Ms': [1, 2], 'degrees': [1, 2], 'nxs': [1]}
+                    desc = G.gen_case(self.rng, prof)
+                    g = desc['method']['grid']
+                    g.pop('min', None)
+                    g.pop('max', None)
+                    if side in ('min', 'both'):
+                        g['min'] = self.rng.choice([0.25, 0.5, 0.125])
+                    if side in ('max', 'both'):
+                        g['max'] = self.rng.choice([2.0, 4.0, 3.0])
+                    self.count("minmax-side:%s" % side)
+                    if not self.handle(desc, R, "minmax-options"):
+                        return
 
     def case_features(self, desc, kind, detail):
         f = NlpCheck.case_features(self, desc, kind, detail)
@@ -674,8 +704,19 @@ class C11(NlpCheck):
         n = 12 if self.tier == 'quick' else 150
         prof = {'methods': ALLM, 'grids': FIXED_GRIDS + ['uniform_locT', 'free', 'uniform_locT0'], 'horizon': ['freeT', 'freet0', 'freeboth'],
                 'obj_kinds': ['at_tf', 'integral'], 'ncons': (0, 2), 'Ns': [1, 2, 3], 'Ms': [1, 2], 'degrees': [1, 2, 3]}
-        for _ in range(n):
-            dA = G.gen_case(self.rng, prof)
+        for it_ in range(n):
+            forced = it_ < (4 if self.tier == 'quick' else 40)
+            dA = G.gen_case(self.rng, dict(prof, horizon=['freeboth']) if forced else prof)
+            if forced and dA['t0'][1] == 0:
+                dA['t0'] = ('free', Fr(3, 2))
+            # with both ends free, sometimes the user gives a guess for ONE of them: it must win for that one, and the other
+            # still starts at its FreeTime guess
+            user_guess = {}
+            if dA['T'][0] == 'free' and dA['t0'][0] == 'free' and (forced or self.rng.random() < 0.6):
+                which = ['T', 't0'][it_ % 2] if forced else self.rng.choice(['T', 't0'])
+                user_guess[which] = Fr(self.rng.randint(1, 9), 2)
+                dA['initial_list'] = [(which, 0, ('num', [float(user_guess[which])]))]
+                self.count("one-sided-horizon-guess:" + which)
             try:
                 bA = B.build(dA)
                 xv, pv, fv = En.rand_point(self.rng, bA)
@@ -691,11 +732,15 @@ class C11(NlpCheck):
                     x0 = ca.DM(bA.opti.debug.value(bA.opti.x, bA.opti.initial())).full().flatten().tolist()
                 phys0 = B.eval_phys(bA, [Fr(v) for v in x0], pv, fv)
                 for key, val in (('T', phys0['T'][0][0]), ('t0', phys0['t0'][0][0])):
-                    if dA[key][0] == 'free' and val != dA[key][1]:
+                    want = user_guess.get(key, dA[key][1])
+                    if dA[key][0] == 'free' and val != want:
                         self.slice_ok["start-value-is-guess"] = False
-                        self.violation("starting value of %s is %s, FreeTime guess %s" % (key, float(val), float(dA[key][1])), {"desc": dA}, {"kind": "free-start", "which": key})
+                        self.violation("starting value of %s is %s, the guess in effect is %s (%s)" % (key, float(val), float(want),
+                                       "set_initial" if key in user_guess else "FreeTime guess; a user guess was given for the other end only" if user_guess else "FreeTime guess"),
+                                       {"desc": dA}, {"kind": "free-start", "which": key})
                         return
                 dB = copy.deepcopy(dA)
+                dB.pop('initial_list', None)
                 if dA['T'][0] == 'free':
                     dB['T'] = ('num', cT)
                 if dA['t0'][0] == 'free':
@@ -966,6 +1011,50 @@ class C07(SampleCheck):
         self.value_slice()
         self.readback_slice()
         self.dm2numpy_slice()
+        self.toplevel_slice()
+
+    def toplevel_slice(self):
+        """an Ocp without dynamics (default DirectMethod, as the parent of a stage tree is): value(e) of expressions of its own
+        variables and parameters is e at the solver's values of the variables and the user's values of the parameters"""
+        import casadi as ca
+        import numpy as np
+        rockit = B.import_rockit()
+        n = 4 if self.tier == 'quick' else 40
+        for it in range(n):
+            rng = self.rng
+            nv, npar = rng.randint(1, 2), rng.randint(1, 2)
+            qv = [rng.randint(1, 9) / 2.0 for _ in range(npar)]
+            tv = [rng.randint(-6, 6) / 2.0 for _ in range(nv)]
+            with B.quiet():
+                ocp = rockit.Ocp()
+                vs = [ocp.variable() for _ in range(nv)]
+                qs = [ocp.parameter() for _ in range(npar)]
+                for q, val in zip(qs, qv):
+                    ocp.set_value(q, val)
+                # unique optimum: v_i = target_i + q_0
+                ocp.add_objective(sum((v - t_ - qs[0]) ** 2 for v, t_ in zip(vs, tv)))
+                ocp.solver('ipopt', {'ipopt.print_level': 0, 'print_time': False, 'ipopt.sb': 'yes', 'ipopt.tol': 1e-12})
+                sol = ocp.solve()
+                e = vs[0] * qs[-1] + 2 * qs[0] - vs[-1]
+                got_q = [float(sol.value(q)) for q in qs]
+                got_v = [float(sol.value(v)) for v in vs]
+                got_e = float(sol.value(e))
+            self.evaluations += 1
+            self.count("toplevel-values")
+            self.signatures.add("toplevel-%d-%d-%d" % (nv, npar, it))
+            want_v = [t_ + qv[0] for t_ in tv]
+            want_e = want_v[0] * qv[-1] + 2 * qv[0] - want_v[-1]
+            bad = None
+            if any(abs(a - b_) > 1e-9 for a, b_ in zip(got_q, qv)):
+                bad = "sol.value(q) of the parameters set to %s returns %s" % (qv, got_q)
+            elif any(abs(a - b_) > 1e-6 for a, b_ in zip(got_v, want_v)):
+                bad = "sol.value(v) returns %s, the minimiser is %s" % (got_v, want_v)
+            elif abs(got_e - want_e) > 1e-6 * max(1.0, abs(want_e)):
+                bad = "sol.value(v0*q+2*q0-v) = %r, at the values of its ingredients it is %r" % (got_e, want_e)
+            if bad:
+                self.slice_ok["value-of-non-signals"] = False
+                self.violation("top-level Ocp with its own variables and parameters: " + bad, {"targets": tv, "param_values": qv}, {"kind": "toplevel-value"})
+                return
 
     def gen(self, extra=None):
         prof = {'methods': ALLM + [('ss', 'euler')], 'grids': FIXED_GRIDS + ['free', 'uniform_locT'], 'horizon': HORIZ,
@@ -1545,7 +1634,8 @@ class C20(Check):
     FAULTS = ['missing_derivative', 'missing_update_rule', 'missing_parameter_value', 'no_method', 'no_solver', 'signal_objective',
               'nonscalar_objective', 'set_value_nonparameter', 'set_value_nonparameter_live', 'set_initial_parameter', 'set_initial_unknown',
               'unknown_constraint_grid', 'unknown_sample_grid', 'foreign_symbol', 'constant_false_literal', 'constant_false_horizon',
-              'alg_with_explicit_scheme', 'horizon_in_ode', 'roots_under_shooting', 'spline_nonlinear', 'spline_time_varying']
+              'alg_with_explicit_scheme', 'horizon_in_ode', 'roots_under_shooting', 'spline_nonlinear', 'spline_time_varying',
+              'inf_unsupported_operation']
 
     def explanation(self):
         return ("theorems over the guard table regenerated from the source: every catalogue guard is present in its anchor function; any "
@@ -1599,6 +1689,12 @@ class C20(Check):
             ocp.set_der(s, s * rng.choice([ocp.T, ocp.t0]))
         elif fault == 'roots_under_shooting':
             ocp.subject_to(x[0] <= 1, grid='integrator_roots')
+        elif fault == 'inf_unsupported_operation':
+            # no sufficient condition can be produced for a non-polynomial expression (C15): must be rejected
+            if rng.random() < 0.5:
+                ocp.subject_to(x[0] / (1 + x[0] * x[0]) <= 1, grid='inf')
+            else:
+                ocp.subject_to(x[0] * x[0] == 1, grid='inf')
 
     def applicable(self, fault, desc):
         m = desc['method']
@@ -1616,6 +1712,8 @@ class C20(Check):
             return desc['T'][0] == 'num'
         if fault.startswith('spline'):
             return False
+        if fault == 'inf_unsupported_operation':
+            return not desc.get('next') and (m['kind'] in ('ms', 'ss') and m['intg'] == 'rk')
         return True
 
     def correspondence(self):
@@ -1656,12 +1754,18 @@ class C20(Check):
                     import rockit.direct_method as DM_
                     try:
                         bt = B.build(desc, transcribe=False)
+                        nt0 = self.count_solver_calls()
                         with B.quiet():
                             bt.ocp.solve_limited()
                     except Exception as ex:
-                        self.slice_ok["well-posed-twins-accepted"] = False
-                        self.violation("well-posed twin raised %s: %s" % (type(ex).__name__, str(ex)[:200]), {"desc": desc}, {"kind": "twin-raised"})
-                        return
+                        if self.count_solver_calls() > nt0:
+                            # rockit accepted the specification and handed the NLP to the solver; what the solver then reports
+                            # (too few degrees of freedom, infeasible start, …) is not a rejection by rockit
+                            self.count("twin-solver-status-not-success")
+                        else:
+                            self.slice_ok["well-posed-twins-accepted"] = False
+                            self.violation("well-posed twin raised %s: %s" % (type(ex).__name__, str(ex)[:200]), {"desc": desc}, {"kind": "twin-raised"})
+                            return
                     before = None
                     raised = None
                     where = None
